@@ -1,5 +1,6 @@
 """C09 — equality is a structural equivalence and deep copy gives an equal, disjoint tree."""
 import math
+import os
 import random
 
 from vflib import core, build
@@ -408,8 +409,12 @@ def run(tier, seed):
     bdir = build.build("asan")
     chk = core.Check(PID, tier, seed)
     npairs, ncopies = (96000, 32000) if tier == "quick" else (1500000, 200000)
+    rd = core.record_dir(PID) if tier == "thorough" else None
     sh = core.parallel(shard_fn, seed=seed, tier=tier, exe=bdir + "/jcdrv", npairs=npairs, ncopies=ncopies)
     chk.absorb(sh)
+    if rd:
+        os.environ.pop("VF_RECORD_DIR", None)
+        core.memcheck_recorded(chk, build.build("plain"), rd)
     chk.rule = ("triples (a,b,c): b independent / one deep mutation of a (scalar replaced by a near value of the same or another kind, bytes after an embedded NUL, null vs absent member, added element) / "
                 "member permutation of a with integer representation flipped (int64<->uint64, 0.0<->-0.0) / rebuilt; c likewise from b; all 9 equal() calls compared with value equality + reflexive, symmetric, "
                 "transitive; NaN leaves; a quarter of the triples and copies first grow a container of one tree by 1..180 filler members/elements and delete them again (same value, different table size / capacity / tombstones). Copies: deep copy must be equal (NaN-free), serialize identically under all 64 flag sets, share no node pointer, survive mutation and destruction of the other side. "
